@@ -102,6 +102,50 @@ def c_gcfg(N: Names, n) -> str:
     return f"(mk_gcfg TEnd TEnd {c_opt(fb, lambda t: c_target(N, t))} {c_bool(n.get('multi', False))} false)"
 
 
+def c_batchd(N: Names, b) -> str:
+    return c_list([c_pair(c_pos(N(o)), c_pos(N(n))) for o, n in b.items()])
+
+
+def c_hist(N: Names, h) -> str:
+    return c_list([c_batchd(N, b) for b in h])
+
+
+def graph_depth(g) -> int:
+    return 1 + max([graph_depth(n["graph"]) for n in g["nodes"] if n["kind"] == "graph"] or [0])
+
+
+def coq_ngraph(N: Names, g, add_def, prefix="ng") -> str:
+    """Emits (through add_def(name, term, type)) the definitions of every nested graph, innermost first,
+    and returns the name of the definition of this graph (to be referenced as $name)."""
+    nodes, ftab, gtab, subs = [], [], [], []
+    k = 0
+    for i, n in enumerate(g["nodes"]):
+        fid = i + 1
+        if n["kind"] == "graph":
+            k += 1
+            sub_name = coq_ngraph(N, n["graph"], add_def, prefix=f"{prefix}_{k}")
+            hin, hout = c_hist(N, n.get("in_hist", [])), c_hist(N, n.get("out_hist", []))
+            nodes.append(f"(graphnode_of {c_pos(N(n['name']))} ${sub_name} {hin} {hout})")
+            if n.get("map_over"):
+                mc = (f"(Some (mk_mapcfg {c_list([c_pos(N(x)) for x in n['map_over']])} "
+                      f"{'MProduct' if n.get('map_mode') == 'product' else 'MZip'} {c_bool(bool(n.get('map_continue')))}))")
+            else:
+                mc = "None"
+            subs.append(f"(mk_sub {c_pos(N(n['name']))} ${sub_name} {hin} {hout} {mc})")
+        else:
+            nodes.append(c_node(N, n, fid))
+            ftab.append(c_pair(c_pos(fid), c_fexp(N, n["fn"])))
+            if n["kind"] in ("ifelse", "route"):
+                gtab.append(c_pair(c_pos(N(n["name"])), c_gcfg(N, n)))
+    names = lambda l: c_list([c_pos(N(x)) for x in l])  # noqa: E731
+    eps = c_opt(g.get("entrypoints"), names)
+    sel = c_opt(g.get("selected"), names)
+    term = (f"mk_ng {c_list(nodes)} {c_dictval(N, g.get('bound', {}))} {eps} {sel} "
+            f"({c_list(ftab)} : dict fexp) ({c_list(gtab)} : dict gate_cfg) {c_list(subs)}")
+    add_def(prefix, term, "ngraph")
+    return prefix
+
+
 def coq_graph(N: Names, g) -> dict:
     """Returns Coq terms {graph, ftab, gtab} for a flat PDL graph."""
     nodes, ftab, gtab = [], [], []
@@ -126,6 +170,10 @@ def coq_graph(N: Names, g) -> dict:
 
 
 # --------------------------------------------------------------------------- real side
+
+
+class _Done(Exception):
+    pass
 
 
 class HgErr(Exception):
@@ -271,9 +319,24 @@ def build_node(n, env, is_async=False):
                          multi_target=n.get("multi", False), name=n["name"], default_open=n.get("default_open", True),
                          emit=emit, wait_for=wait, cache=n.get("cache", False))
     if kind == "interrupt":
-        f = make_function(n, env, is_async)
+        f = make_function(n, env, False)
         out = tuple(outs) if len(outs) > 1 else outs[0]
         return InterruptNode(f, name=n["name"], output_name=out, emit=emit, wait_for=wait)
+    if kind == "graph":
+        inner = build_graph(n["graph"], env, is_async)
+        gn = inner.as_node(name=n["name"])
+        touch = n.get("touch")
+        for b in n.get("in_hist", []):
+            if touch:
+                _touch_node(gn)
+            gn = gn.with_inputs(dict(b))
+        for b in n.get("out_hist", []):
+            if touch:
+                _touch_node(gn)
+            gn = gn.with_outputs(dict(b))
+        if n.get("map_over"):
+            gn = gn.map_over(*n["map_over"], mode=n.get("map_mode", "zip"), error_handling="continue" if n.get("map_continue") else "raise")
+        return gn
     raise ValueError(kind)
 
 
@@ -316,6 +379,19 @@ def _canon_decision(v):
     if isinstance(v, list):
         return ["END" if (t is hg.END or t == "END") else t for t in v]
     return v
+
+
+def _touch_node(gn):
+    """Use a node object between derivations the way a program would (fills its cached properties)."""
+    from hypergraph import Graph
+
+    for c in gn.inputs:
+        gn.has_default_for(c)
+        gn.get_input_type(c)
+    try:
+        Graph([gn]).inputs
+    except Exception:  # noqa: BLE001
+        pass
 
 
 class RealRun:
@@ -411,9 +487,17 @@ def run_real(g, run, rank=None):
     with warnings.catch_warnings(record=True) as wlist:
         warnings.simplefilter("always")
         try:
+            mp = run.get("map")
+            if mp is not None:
+                kw.pop("max_iterations", None)
+                kw["map_over"] = mp["over"]
+                kw["map_mode"] = mp.get("mode", "zip")
             if run.get("runner", "sync") == "sync":
                 G = build_graph(g, rr.env(), False)
-                res = SyncRunner().run(G, dict(run["inputs"]), **kw)
+                if mp is not None:
+                    res = SyncRunner().map(G, dict(run["inputs"]), **kw)
+                else:
+                    res = SyncRunner().run(G, dict(run["inputs"]), **kw)
             else:
                 ts = Turnstile(rank or (lambda name: 0))
 
@@ -423,6 +507,8 @@ def run_real(g, run, rank=None):
                     try:
                         if run.get("max_concurrency") is not None:
                             kw["max_concurrency"] = run["max_concurrency"]
+                        if mp is not None:
+                            return await AsyncRunner().map(G, dict(run["inputs"]), **kw)
                         return await AsyncRunner().run(G, dict(run["inputs"]), **kw)
                     finally:
                         ts.stop = True
@@ -431,6 +517,14 @@ def run_real(g, run, rank=None):
                 res = asyncio.run(go())
                 obs["release_order"] = ts.order
                 obs["peak_inflight"] = ts.peak
+            if mp is not None:
+                obs["status"] = "mapped"
+                obs["values"] = {}
+                obs["error"] = None
+                obs["results"] = [{"status": r.status.value, "values": r.values, "error": None if r.error is None else err_id(r.error),
+                                   "error_is_raised_object": r.error is None or not isinstance(r.error, HgErr) or any(r.error is e for e in rr.raised),
+                                   "error_repr": None if r.error is None else f"{type(r.error).__name__}: {r.error}"[:160]} for r in res]
+                raise _Done()
             obs["status"] = res.status.value
             obs["values"] = res.values
             obs["error"] = None if res.error is None else err_id(res.error)
@@ -438,9 +532,12 @@ def run_real(g, run, rank=None):
             obs["error_repr"] = None if res.error is None else f"{type(res.error).__name__}: {res.error}"[:200]
             if res.pause is not None:
                 obs["pause"] = {"node": res.pause.node_name, "out": res.pause.output_param, "value": res.pause.value, "key": res.pause.response_key}
+        except _Done:
+            pass
         except Exception as e:  # noqa: BLE001
             obs["status"] = "raised"
             obs["error_class"] = type(e).__name__
+            obs["error_is_raised_object"] = (not isinstance(e, HgErr)) or any(e is x for x in rr.raised)
             obs["error"] = err_id(e)
             obs["error_repr"] = f"{type(e).__name__}: {e}"[:300]
             obs["values"] = {}
